@@ -75,7 +75,12 @@ def generate(rng, tier):
                     if first <= i < first + cnt:
                         j = rng.randint(first, first + cnt - 1)
                         out.append({'op': 'index', 'ch': r['ch'], 'i': j if rng.random() < 0.7 else j - n})
-    return {'spec': spec, 'raw_ts': rng.random() < 0.3, 'ops': out, 'debug_log': rng.random() < 0.05}
+    cut = None
+    last = w.segs[-1]
+    if (last.layout != 'daqmx' and last.end - last.data_pos > 1 and not spec['segments'][-1].get('short_last')
+            and rng.random() < 0.1):
+        cut = rng.randint(last.data_pos + 1, last.end - 1)     # a file cut short by a crash: the bound must still hold
+    return {'spec': spec, 'raw_ts': rng.random() < 0.3, 'ops': out, 'debug_log': rng.random() < 0.05, 'cut': cut}
 
 
 def merge(iv):
@@ -156,7 +161,11 @@ def execute(case):
     from .c04 import _sig
     res.sig = [_sig(spec), sorted(set(o['op'] for o in case['ops']))]
     with store(record=True) as st, lib.knobs(debug_log=case.get('debug_log', False)):
-        st.put('w.tdms', w.data)
+        cut = case.get('cut')
+        st.put('w.tdms', w.data if cut is None else w.data[:cut])
+        if cut is not None:
+            res.probe('truncated-file')
+            res.fault('crash')
         try:
             tf = lib.TdmsFile.open(st.source('simstream', 'w.tdms'), raw_timestamps=case['raw_ts'])
         except Exception as exc:
@@ -168,6 +177,12 @@ def execute(case):
             for i, op in enumerate(case['ops']):
                 ch = w.chans[op['ch']]
                 n = ch.count
+                if cut is not None:
+                    try:
+                        n = len(ops.chan(tf, w, op['ch']))      # what the request is relative to in a truncated file
+                    except Exception:
+                        res.skipped_ops += 1
+                        continue
                 mark = st.fs.mark()
                 got, exc, eo = ops.try_op(lambda: ops.do_op(tf, w, op))
                 reads = st.fs.reads_since(mark)
@@ -227,6 +242,10 @@ def shrink_candidates(case):
     for o in list_candidates(case['ops']):
         c = dict(case)
         c['ops'] = o
+        yield c
+    if case.get('cut') is not None:
+        c = dict(case)
+        c['cut'] = None
         yield c
     for sp in spec_candidates(case['spec']):
         c = dict(case)
